@@ -107,6 +107,7 @@ func (f *Frame) havocAlloc() {
 	a0 := e.comp(f.st, "alloc", arrSort(sBool))
 	a1 := e.declare("alloc", arrSort(sBool))
 	e.assume("true", fmt.Sprintf("(forall ((r Int)) (! (=> (select %s r) (select %s r)) :pattern ((select %s r))))", a0, a1, a1))
+	e.assume("true", not(sel(a1, "0"))) // nil is never an allocated object
 	f.st.heap["alloc"] = a1
 }
 
